@@ -2,6 +2,8 @@ import StepModel.ExpressResolve
 /-! Lemmas about the cycle search of `Express.Resolve` (`dfs`): soundness for both variants, completeness for the
 `continue` variant — for every graph, start node, sibling order and fuel. -/
 namespace StepModel.Express.Resolve
+open StepModel.Generated
+open StepModel.Express.Diag (Arg Diag Via)
 
 /-- `b` is reachable from `a` in at least one step of `g` -/
 inductive Reach (g : String → List String) : String → String → Prop
@@ -230,5 +232,114 @@ theorem exportOf_order_independent (f : File) (hnd : NoDupAlias f) (p₁ p₂ : 
           | some o => simp [viaDict_le_viaList _ t n nd o hA]
         · simp [hp]
       rw [key p₁, key p₂]
+
+/-! ### every diagnostic of a schema carries the file the schema was read from -/
+
+/-- all diagnostics of the list are attributed to file `p` -/
+def AllFile (p : String) (ds : List Diag) : Prop := ∀ d ∈ ds, d.file = p.toList ∧ d.via = .symbol
+
+theorem allFile_nil (p : String) : AllFile p [] := by intro d h; simp at h
+theorem allFile_mk (p : String) (c l : Nat) (a : List Arg) : AllFile p [mk p c l a] := by
+  intro d h; simp at h; subst h; exact ⟨rfl, rfl⟩
+theorem allFile_append {p : String} {a b : List Diag} (ha : AllFile p a) (hb : AllFile p b) : AllFile p (a ++ b) := by
+  intro d h; rcases List.mem_append.mp h with h | h
+  · exact ha d h
+  · exact hb d h
+theorem allFile_cons {p : String} {a : Diag} {b : List Diag} (ha : a.file = p.toList ∧ a.via = .symbol) (hb : AllFile p b) : AllFile p (a :: b) := by
+  intro d h; rcases List.mem_cons.mp h with h | h
+  · subst h; exact ha
+  · exact hb d h
+theorem allFile_flatMap {α : Type} {p : String} (l : List α) (g : α → List Diag) (h : ∀ x ∈ l, AllFile p (g x)) :
+    AllFile p (l.flatMap g) := by
+  intro d hd; obtain ⟨x, hx, hd⟩ := List.mem_flatMap.mp hd; exact h x hx d hd
+theorem allFile_filterMap {α : Type} {p : String} (l : List α) (g : α → Option Diag)
+    (h : ∀ x ∈ l, ∀ d, g x = some d → d.file = p.toList ∧ d.via = .symbol) : AllFile p (l.filterMap g) := by
+  intro d hd; obtain ⟨x, hx, hd⟩ := List.mem_filterMap.mp hd; exact h x hx d hd
+theorem allFile_map {α : Type} {p : String} (l : List α) (g : α → Diag) (h : ∀ x ∈ l, (g x).file = p.toList ∧ (g x).via = .symbol) :
+    AllFile p (l.map g) := by
+  intro d hd; obtain ⟨x, hx, hd⟩ := List.mem_map.mp hd; subst hd; exact h x hx
+
+theorem typeRefDiags_file (p : String) (env : Env) (s : Schema) : ∀ t, AllFile p (typeRefDiags p env s t)
+  | .simple => by simp [typeRefDiags, allFile_nil]
+  | .aggr b => by simpa [typeRefDiags] using typeRefDiags_file p env s b
+  | .named n l => by
+    simp only [typeRefDiags]
+    split
+    · exact allFile_nil p
+    · split
+      · exact allFile_mk _ _ _ _
+      · split
+        · exact allFile_mk _ _ _ _
+        · exact allFile_nil p
+        · exact allFile_mk _ _ _ _
+
+theorem pass1_file (f : File) (s : Schema) : AllFile (fileOf f s) (pass1 f s) := by
+  apply allFile_flatMap
+  intro i _
+  split
+  · exact allFile_nil _
+  · split
+    · exact allFile_map _ _ (fun _ _ => ⟨rfl, rfl⟩)
+    · exact allFile_mk _ _ _ _
+
+theorem aliasDups_file (p : String) : ∀ items seen, AllFile p (aliasDups p items seen)
+  | [], _ => by simp [aliasDups, allFile_nil]
+  | (n, l, o) :: rest, seen => by
+    simp only [aliasDups]
+    split
+    · split
+      · exact aliasDups_file p rest seen
+      · exact allFile_cons ⟨rfl, rfl⟩ (aliasDups_file p rest seen)
+    · exact aliasDups_file p rest _
+
+theorem pass2_file (f : File) (fb : Bool) (s : Schema) : AllFile (fileOf f s) (pass2 f fb s) := by
+  have miss : ∀ (items : List (String × Item)),
+      AllFile (fileOf f s) (items.filterMap fun x =>
+        match exportOf f fb (processedBefore f s.name) (importFuel f) x.1 x.2.old with
+        | some _ => none
+        | none => some (mk (fileOf f s) LibErrors.REF_NONEXISTENT x.2.line [sArg x.2.old, sArg x.1])) := by
+    intro items
+    apply allFile_filterMap
+    intro x _ d hd
+    split at hd <;> first | (simp at hd; done) | (simp at hd; subst hd; exact ⟨rfl, rfl⟩) | (simp at hd; obtain ⟨_, rfl⟩ := hd; exact ⟨rfl, rfl⟩)
+  simp only [pass2]
+  exact allFile_append (allFile_append (allFile_append (miss _) (aliasDups_file _ _ _)) (miss _)) (aliasDups_file _ _ _)
+
+theorem pass3_file (p : String) (env : Env) (s : Schema) : AllFile p (pass3 p env s) := by
+  apply allFile_flatMap
+  intro decl _
+  cases decl with
+  | entity e =>
+    apply allFile_append
+    · apply allFile_filterMap; intro x _ d hd
+      obtain ⟨n, l⟩ := x
+      simp only at hd
+      split at hd
+      · simp at hd
+      · split at hd <;> (simp at hd; subst hd; exact ⟨rfl, rfl⟩)
+    · apply allFile_filterMap; intro x _ d hd
+      split at hd
+      · simp at hd
+      · split at hd <;> (simp at hd; subst hd; exact ⟨rfl, rfl⟩)
+  | type t =>
+    simp only
+    split
+    · apply allFile_append
+      · apply allFile_append
+        · split
+          · split
+            · exact allFile_mk _ _ _ _
+            · exact allFile_nil _
+          · exact allFile_nil _
+        · exact typeRefDiags_file _ _ _ _
+      · split
+        · split
+          · exact allFile_mk _ _ _ _
+          · exact allFile_nil _
+        · exact allFile_nil _
+    · apply allFile_flatMap; intro x _; exact typeRefDiags_file _ _ _ _
+    · exact allFile_nil _
+  | func _ => exact allFile_nil _
+  | syntaxError _ _ _ => exact allFile_nil _
 
 end StepModel.Express.Resolve
